@@ -51,4 +51,70 @@ func (x *Exec) nextInstr(st *State, fr *Frame, in *ssa.Next) Val {
 	return Val{}
 }
 
-func (x *Exec) ghostCallback(st *State, fr *Frame, in *ssa.Call, fv ssa.Value, args []Val, res Val) {}
+// calleeVarName finds the source name of the variable a dynamic call goes through.
+func calleeVarName(v ssa.Value) string {
+	switch t := v.(type) {
+	case *ssa.Parameter:
+		return t.Name()
+	case *ssa.FreeVar:
+		return t.Name()
+	case *ssa.UnOp:
+		switch a := t.X.(type) {
+		case *ssa.Alloc:
+			return a.Comment
+		case *ssa.FreeVar:
+			return a.Name()
+		}
+	}
+	return ""
+}
+
+// ghostCallback applies the oncall clauses of the root contract to a call
+// through a function-typed variable.
+func (x *Exec) ghostCallback(st *State, fr *Frame, in *ssa.Call, fv ssa.Value, args []Val, res Val) {
+	if x.contract == nil || x.contract.OnCalls == nil {
+		return
+	}
+	name := calleeVarName(fv)
+	oc := x.contract.OnCalls[name]
+	if oc == nil {
+		return
+	}
+	vars := map[string]Val{}
+	for k, v := range x.rootArgs {
+		vars[k] = v
+	}
+	for i, a := range args {
+		if a.DP != nil || a.Clo != nil || a.Fn != nil || a.Tup != nil {
+			continue
+		}
+		vars["arg"+itoa(i)] = a
+	}
+	pre := st.clone()
+	sc := &SpecCtx{x: x, st: pre, old: pre, vars: vars, pkg: pkgOf(x.root)}
+	for j, cl := range oc.Requires {
+		g := x.evalClause(sc, cl)
+		x.emitNamed(st, "oncall-pre@"+name+"#"+clauseLabel(cl, j), "oncall", fr, in.Pos(), g, "call of "+name+" violates its protocol: "+cl.Src)
+	}
+	pre.pc = st.pc
+	x.havocGhosts(st, x.contract)
+	post := &SpecCtx{x: x, st: st, old: pre, vars: vars, pkg: pkgOf(x.root)}
+	if res.Tup == nil && res.S != "" {
+		post.vars["result"] = res
+	}
+	for _, cl := range oc.Ensures {
+		x.assume(st, x.evalClause(post, cl))
+	}
+}
+
+func itoa(i int) string {
+	if i == 0 {
+		return "0"
+	}
+	s := ""
+	for i > 0 {
+		s = string(rune('0'+i%10)) + s
+		i /= 10
+	}
+	return s
+}
